@@ -68,21 +68,26 @@ type Extractor struct {
 // This ensures immutability - each chain method returns a new instance.
 func (e *Extractor) clone() *Extractor {
 	newExt := &Extractor{
-		filename:     e.filename,
-		format:       e.format,
-		reader:       e.reader,
-		docxReader:   e.docxReader,
-		odtReader:    e.odtReader,
-		xlsxReader:   e.xlsxReader,
-		pptxReader:   e.pptxReader,
-		htmlReader:   e.htmlReader,
-		epubReader:   e.epubReader,
-		ownsReader:   e.ownsReader,
-		readerOpened: e.readerOpened,
-		options:      e.options.clone(),
-		err:          e.err,
-		warnings:     append([]Warning(nil), e.warnings...),
-		ocrClient:    e.ocrClient,
+		filename:  e.filename,
+		format:    e.format,
+		options:   e.options.clone(),
+		err:       e.err,
+		warnings:  append([]Warning(nil), e.warnings...),
+		ocrClient: e.ocrClient,
+	}
+	// A reader supplied by the caller (FromReader, FromHTMLReader) is shared and
+	// owned by nobody here. A reader this extractor opened itself stays with it:
+	// the copy opens its own when it needs one, so a terminal operation on one of
+	// them does not close the reader under the other.
+	if !e.ownsReader {
+		newExt.reader = e.reader
+		newExt.docxReader = e.docxReader
+		newExt.odtReader = e.odtReader
+		newExt.xlsxReader = e.xlsxReader
+		newExt.pptxReader = e.pptxReader
+		newExt.htmlReader = e.htmlReader
+		newExt.epubReader = e.epubReader
+		newExt.readerOpened = e.readerOpened
 	}
 	return newExt
 }
